@@ -40,7 +40,9 @@ package prunner
 //@ pure RIjobs(r *PipelineRunner) bool = forall p string :: all(r.jobsByPipeline[p], nonNil)
 //@ pure wlEntry(j *PipelineJob, p string) bool = j != nil && allocated(j) && j.Pipeline == p && j.Start == nil && !j.Canceled && !j.Completed
 //@ pure RIwl(r *PipelineRunner) bool = forall p string :: all(r.waitListByPipeline[p], wlEntry, p) && distinctElems(r.waitListByPipeline[p])
-//@ pure RI(r *PipelineRunner) bool = RIbase(r) && RIjobs(r) && RIwl(r)
+//@ pure RIids(r *PipelineRunner) bool = forall id uuid.UUID :: id in r.jobsByID ==> r.jobsByID[id] != nil && r.jobsByID[id].ID == id
+//@ pure RIsep(r *PipelineRunner) bool = forall p string, q string :: (base(r.jobsByPipeline[p]) != 0 ==> base(r.jobsByPipeline[p]) != base(r.waitListByPipeline[q])) && (p != q && base(r.jobsByPipeline[p]) != 0 ==> base(r.jobsByPipeline[p]) != base(r.jobsByPipeline[q])) && (p != q && base(r.waitListByPipeline[p]) != 0 ==> base(r.waitListByPipeline[p]) != base(r.waitListByPipeline[q]))
+//@ pure RI(r *PipelineRunner) bool = RIbase(r) && RIids(r) && RIjobs(r) && RIwl(r) && RIsep(r)
 
 // ---------------------------------------------------------------------------------------
 //@ func (*PipelineJob).isRunning
@@ -125,14 +127,14 @@ package prunner
 //@   ensures  [set] j.sched != nil && fresh(j.sched)
 //@   modifies PipelineJob.sched@[j], PipelineJob.taskRunner@[j], taskctl.Scheduler.onStageChange
 
+//@ pure removedRel(e *PipelineJob, i int, w []*PipelineJob, m int) bool = (i < m ==> e == w[i]) && (i >= m ==> e == w[i+1])
 //@ func removeJobFromWaitList
 //@   lockmode R
-//@   requires [elems] forall k :: 0 <= k && k < len(waitList) ==> waitList[k] != nil
-//@   ensures  [absent] (forall k :: 0 <= k && k < len(waitList) ==> waitList[k] != jobToRemove) ==> res == waitList
-//@   ensures  [removed] (exists k :: 0 <= k && k < len(waitList) && waitList[k] == jobToRemove) ==> len(res) == len(waitList) - 1 && fresh(base(res)) && off(res) == 0 && exists m :: 0 <= m && m < len(waitList) && waitList[m] == jobToRemove && (forall k :: 0 <= k && k < m ==> res[k] == waitList[k] && waitList[k] != jobToRemove) && (forall k :: m <= k && k < len(res) ==> res[k] == waitList[k+1])
-//@   ensures  [old] forall k :: 0 <= k && k < len(waitList) ==> waitList[k] == old(waitList[k])
+//@   ensures  [absent] all(waitList, neq, jobToRemove) ==> res == waitList
+//@   ensures  [removed] !all(waitList, neq, jobToRemove) ==> len(res) == len(waitList) - 1 && fresh(base(res)) && off(res) == 0 && exists m :: 0 <= m && m < len(waitList) && waitList[m] == jobToRemove && allIdx(res, removedRel, waitList, m)
+//@   ensures  [old] same("mem(*PipelineJob)")
 //@   modifies mem(*PipelineJob)
-//@   loop 1 invariant [notyet] 0 <= $i + 1 && $i + 1 <= len(waitList) && (forall k :: 0 <= k && k <= $i ==> waitList[k] != jobToRemove)
+//@   loop 1 invariant [notyet] 0 <= $i + 1 && $i + 1 <= len(waitList) && all(waitList[:$i+1], neq, jobToRemove)
 
 // ---------------------------------------------------------------------------------------
 // Two-state invariant of job life cycles (section 4.3 of DESIGN.md): holds between entry and exit of
@@ -141,7 +143,7 @@ package prunner
 //@ pure progress(r *PipelineRunner, p string) bool = len(r.waitListByPipeline[p]) == 0 || running(r, p) >= conc(r, p) || r.waitListByPipeline[p][0].startTimer != nil
 //@ pure notOnList(r *PipelineRunner, job *PipelineJob) bool = all(r.waitListByPipeline[job.Pipeline], neq, job)
 //@ pure suffixOf(a []*PipelineJob, b []*PipelineJob) bool = base(a) == base(b) && off(a) >= off(b) && off(a) + len(a) == off(b) + len(b)
-//@ pure Tcanceled() bool = forall j *PipelineJob :: old(j.Canceled) ==> j.Start == old(j.Start) && j.LastError == old(j.LastError) && j.sched == old(j.sched) && j.startTimer == old(j.startTimer)
+//@ pure Tcanceled() bool = forall j *PipelineJob :: old(j.Canceled) || old(j.Start) != nil ==> j.Start == old(j.Start) && j.LastError == old(j.LastError) && j.sched == old(j.sched) && j.startTimer == old(j.startTimer) && j.Canceled == old(j.Canceled)
 
 //@ func buildJobTasks
 //@   lockmode any
@@ -167,7 +169,7 @@ package prunner
 //@   ensures  [graphError] !old(job.Canceled) && job.Canceled ==> job.Start == nil && job.LastError != nil
 //@   ensures  [C03.progress] !old(job.Canceled) && job.Canceled ==> progress(r, job.Pipeline)
 //@   ensures  [C06.suffix] suffixOf(r.waitListByPipeline[job.Pipeline], old(r.waitListByPipeline[job.Pipeline]))
-//@   ensures  [persist] !old(job.Canceled) ==> $persist
+//@   ensures  [persist] (!old(job.Canceled) ==> $persist) && (old($persist) ==> $persist)
 //@   ensures  [T] Tjobs() && Tcanceled()
 //@   ensures  [defs] r.defs == old(r.defs)
 //@   modifies PipelineJob.Start, PipelineJob.sched, PipelineJob.taskRunner, PipelineJob.LastError, PipelineJob.Canceled, taskctl.Scheduler.onStageChange, map(map[string][]*PipelineJob)@[r.waitListByPipeline], mem(time.Time), $persist, $clock
@@ -178,11 +180,81 @@ package prunner
 //@   ensures  [ri] RI(r)
 //@   ensures  [C03.progress] progress(r, pipeline)
 //@   ensures  [C06.suffix] suffixOf(r.waitListByPipeline[pipeline], old(r.waitListByPipeline[pipeline]))
+//@   ensures  [persist] old($persist) ==> $persist
 //@   ensures  [T] Tjobs() && Tcanceled()
 //@   ensures  [defs] r.defs == old(r.defs)
 //@   modifies PipelineJob.Start, PipelineJob.sched, PipelineJob.taskRunner, PipelineJob.LastError, PipelineJob.Canceled, taskctl.Scheduler.onStageChange, map(map[string][]*PipelineJob)@[r.waitListByPipeline], mem(time.Time), $persist, $clock
 //@   loop 1 invariant [ri] RI(r) && r.defs == old(r.defs) && r.waitListByPipeline == old(r.waitListByPipeline)
 //@   loop 1 invariant [current] waitList == r.waitListByPipeline[pipeline]
 //@   loop 1 invariant [suffix] suffixOf(waitList, old(r.waitListByPipeline[pipeline]))
-//@   loop 1 invariant [T] Tjobs() && Tcanceled()
+//@   loop 1 invariant [T] Tjobs() && Tcanceled() && (old($persist) ==> $persist)
 //@   loop 1 invariant [frame] sameExcept("map(map[string][]*PipelineJob)", old(r.waitListByPipeline))
+
+// ---------------------------------------------------------------------------------------
+// Monitor invariant: assumed when mx is acquired, proved when it is released (bridge B1).
+//@ monitor [RI] RI(r)
+
+//@ ghost $cancelSpawned array Int
+//@ pure tasksCanceled(j *PipelineJob) bool = forall i :: 0 <= i && i < len(j.Tasks) ==> j.Tasks[i].Canceled
+
+//@ func (*PipelineRunner).cancelJobInternal
+//@   lockmode W
+//@   requires [ri] RI(r)
+//@   ensures  [ri] RI(r)
+//@   ensures  [C04.unknown] !(id in old(r.jobsByID)) ==> res == ErrJobNotFound && unchangedHeap()
+//@   ensures  [C04.alreadyCanceled] (id in old(r.jobsByID)) && old(r.jobsByID[id].Canceled) ==> res == nil && unchangedHeap()
+//@   ensures  [C04.finished] (id in old(r.jobsByID)) && !old(r.jobsByID[id].Canceled) && old(r.jobsByID[id].Completed) ==> res == errJobAlreadyCompleted && unchangedHeap()
+//@   ensures  [C04.waiting] (id in old(r.jobsByID)) && old(jobWaiting(r.jobsByID[id])) && !old(r.jobsByID[id].Completed) ==> res == nil && old(r.jobsByID[id]).Canceled && old(r.jobsByID[id]).Start == nil && old(r.jobsByID[id]).startTimer == nil && tasksCanceled(old(r.jobsByID[id])) && $persist
+//@   ensures  [C05.offList] (id in old(r.jobsByID)) && old(jobWaiting(r.jobsByID[id])) && !old(r.jobsByID[id].Completed) ==> notOnList(r, old(r.jobsByID[id]))
+//@   ensures  [C04.running] (id in old(r.jobsByID)) && old(jobRunning(r.jobsByID[id])) ==> res == nil && same(PipelineJob.Canceled) && same(PipelineJob.Start) && same(PipelineJob.Completed) && same("map(map[string][]*PipelineJob)") && (old(r.jobsByID[id].sched) != nil ==> $cancelSpawned[old(r.jobsByID[id])] == old($cancelSpawned[r.jobsByID[id]]) + 1)
+//@   ensures  [C03.progress] (id in old(r.jobsByID)) && old(jobWaiting(r.jobsByID[id])) && !old(r.jobsByID[id].Completed) ==> progress(r, old(r.jobsByID[id]).Pipeline)
+//@   ensures  [T] Tjobs()
+//@   ensures  [defs] r.defs == old(r.defs) && same(PipelineJob.Completed) && same("map(map[uuid.UUID]*PipelineJob)")
+//@   modifies PipelineJob.Start, PipelineJob.sched, PipelineJob.taskRunner, PipelineJob.LastError, PipelineJob.Canceled, PipelineJob.startTimer, jobTask.Canceled, taskctl.Scheduler.onStageChange, map(map[string][]*PipelineJob)@[r.waitListByPipeline], mem(time.Time), mem(*PipelineJob), $persist, $clock, $stopped, $cancelSpawned
+//@   at go (*PipelineRunner).cancelJobInternal$1#1: ghost $cancelSpawned[job] := $cancelSpawned[job] + 1
+
+//@ func (*PipelineRunner).CancelJob
+//@   lockmode none
+//@   ensures  [C04.unknown] !(id in old(r.jobsByID)) ==> res == ErrJobNotFound && unchangedHeap()
+//@   ensures  [C04.alreadyCanceled] (id in old(r.jobsByID)) && old(r.jobsByID[id].Canceled) ==> res == nil && unchangedHeap()
+//@   ensures  [C04.finished] (id in old(r.jobsByID)) && !old(r.jobsByID[id].Canceled) && old(r.jobsByID[id].Completed) ==> res == errJobAlreadyCompleted && unchangedHeap()
+//@   ensures  [C04.waiting] (id in old(r.jobsByID)) && old(jobWaiting(r.jobsByID[id])) && !old(r.jobsByID[id].Completed) ==> res == nil && old(r.jobsByID[id]).Canceled && old(r.jobsByID[id]).Start == nil && tasksCanceled(old(r.jobsByID[id])) && $persist
+//@   ensures  [C04.running] (id in old(r.jobsByID)) && old(jobRunning(r.jobsByID[id])) ==> res == nil && same(PipelineJob.Canceled) && same(PipelineJob.Start) && same(PipelineJob.Completed)
+
+//@ func (*PipelineRunner).cancelJobInternal$1
+//@   lockmode none
+//@   modifies nothing
+
+// ---------------------------------------------------------------------------------------
+// Entry points (critical sections of the monitor)
+
+//@ func (*PipelineRunner).ReplaceDefinitions
+//@   lockmode none
+//@   requires [valid] defs != nil
+//@   ensures  [C16.defsOnly] r.defs == defs
+//@   modifies PipelineRunner.defs@[r]
+
+//@ func (*PipelineRunner).StartDelayedJob
+//@   lockmode none
+//@   ensures  [C03.timerTruth] (id in old(r.jobsByID)) && !old(r.jobsByID[id].Canceled) ==> old(r.jobsByID[id]).startTimer == nil || old(r.jobsByID[id]).Canceled
+//@   ensures  [C03.progress] (id in old(r.jobsByID)) && !old(r.jobsByID[id].Canceled) ==> progress(r, old(r.jobsByID[id]).Pipeline)
+//@   ensures  [unknown] !(id in old(r.jobsByID)) || old(r.jobsByID[id].Canceled) ==> unchangedHeap()
+//@   ensures  [T] Tjobs()
+//@   ensures  [defs] r.defs == old(r.defs)
+
+//@ func (*PipelineRunner).JobCompleted
+//@   lockmode none
+//@   assumes  [token] (id in r.jobsByID) ==> r.jobsByID[id].Start != nil && r.jobsByID[id].sched != nil
+//@   ensures  [C04.verdict] (id in old(r.jobsByID)) ==> old(r.jobsByID[id]).Completed && old(r.jobsByID[id]).End != nil && old(r.jobsByID[id]).LastError == err && (errIs(err, context.Canceled) ==> old(r.jobsByID[id]).Canceled) && (old(r.jobsByID[id]).Canceled ==> old(r.jobsByID[id].Canceled) || errIs(err, context.Canceled)) && old(r.jobsByID[id]).sched == nil
+//@   ensures  [C03.progress] (id in old(r.jobsByID)) ==> progress(r, old(r.jobsByID[id]).Pipeline) && $persist
+//@   ensures  [unknown] !(id in old(r.jobsByID)) ==> unchangedHeap()
+//@   ensures  [T] Tjobs()
+//@   ensures  [defs] r.defs == old(r.defs)
+
+//@ func (*PipelineRunner).startJob$1
+//@   lockmode none
+//@   allowread PipelineJob.sched ordered after initScheduler by the go statement and before deinitScheduler by program order, provided the job is started at most once (startJob/requires[notStarted])
+//@   requires [token] job != nil && job.sched != nil && job.Start != nil
+//@   at call (*PipelineRunner).JobCompleted#1: assert [C01.order] $scheduleReturned
+
+//@ ghost $scheduleReturned scalar Bool
